@@ -253,19 +253,29 @@ def cover_exec(rng, name):
         sy = rng.choice([sx, ONE, ONE // 2, 2 * ONE])
         tx = rng.choice([0, 1, -1, ONE // 2, ONE // 4, ONE // 3, 3 * ONE // 4 + 1])
         ty = rng.choice([0, 1, -1, ONE // 2, ONE // 4 + 1])
+        # mirrored axes (a third of the cases): the source is walked right to left / bottom to top, with reductions and
+        # enlargements so that consecutive destination rows share, skip or revisit source rows in DEcreasing order
+        flipx = rng.random() < 0.2
+        flipy = rng.random() < 0.33
+        if flipx:
+            sx, tx = -sx, tx + (w - 1) * ONE
+        if flipy:
+            sy = -rng.choice([ONE // 2, 2 * ONE // 3, 3 * ONE // 4, ONE, ONE + ONE // 4, 3 * ONE // 2, 2 * ONE, 9 * ONE // 4])
+            ty = ty + (h - 1) * ONE
         m = [[sx, 0, tx], [0, sy, ty], [0, 0, ONE]]
         out.append("T " + " ".join(str(v) for r in m for v in r))
         out.append("F " + rng.choice(["nearest", "bilinear", "bilinear"]) + " 0")
         out.append("P " + rng.choice(REPEATS))
-        # destination range whose samples (and bilinear neighbours) stay inside: 1 <= sx * (x + 1/2) + tx <= w - 1
-        xlo = -((tx - ONE) // sx) + 1
-        xhi = ((w - 1) * ONE - tx) // sx - 1
-        ylo = -((ty - ONE) // sy) + 1
-        yhi = ((h - 1) * ONE - ty) // sy - 1
+        # destination range whose samples (and bilinear neighbours) stay inside: 1 <= s * (x + 1/2) + t <= size - 1
+        def inside(sc, tr, size):
+            ok = [v for v in range(-300, 300) if ONE <= sc * v + sc // 2 + tr <= (size - 1) * ONE]
+            return (min(ok), max(ok)) if ok else (0, 0)
+        xlo, xhi = inside(sx, tx, w)
+        ylo, yhi = inside(sy, ty, h)
         for _k in range(rng.randint(2, 4)):
             n = rng.choice([1, 2, 3, 4, 5, 7, 8, 9, 13, 16, 21])
             n = max(1, min(n, xhi - xlo + 1))
-            rows = max(1, min(rng.choice([1, 2, 3]), yhi - ylo + 1))
+            rows = max(1, min(rng.choice([1, 2, 3, 5] if flipy else [1, 2, 3]), yhi - ylo + 1))
             x0 = rng.randint(xlo, max(xlo, xhi - n + 1))
             y0 = rng.randint(ylo, max(ylo, yhi - rows + 1))
             role = "mask" if rng.random() < 0.2 else "src"
